@@ -185,7 +185,7 @@ class EngineBase:
         c = self.cur[0]
         return tuple(c.props.get(text, c.property))
 
-    def check_now(self, st, kind, key, text, goal, line=None, timeout_ms=3000):
+    def check_now(self, st, kind, key, text, goal, line=None, timeout_ms=4000):
         """safety side condition of a partial operation: try to prove at once; returns True when proved."""
         self.stats['safety_checks'] += 1
         ob = Obligation("%s/%s[%s]" % (self.cur[1], kind, key), self.cur[1], kind, text, st.hyps(), goal,
